@@ -150,13 +150,14 @@ PROPS['C09'] = dict(level='model_checking',
 PROPS['C11'] = dict(level='model_checking',
   bounds='sequential; contexts are ghost ids set by harness schedulers; leaf outcome and target context symbolic; trait soundness over 7 sender shapes',
   outside='task<> affinity (coroutines not built); contexts backed by real threads; async_mutex/async_pass senders',
-  harnesses=[SEQ('ctx_' + n, 'C11_ctx.cpp', 'h_' + n, desc=n) for n in ['via', 'typed_via', 'on', 'event_affine', 'traits_just', 'traits_then', 'traits_let', 'traits_seq', 'traits_finally', 'traits_sched', 'traits_done']])
+  harnesses=[SEQ('ctx_' + n, 'C11_ctx.cpp', 'h_' + n, desc=n) for n in ['via', 'typed_via', 'on', 'event_affine', 'traits_affine', 'traits_just', 'traits_then', 'traits_let', 'traits_seq', 'traits_finally', 'traits_sched', 'traits_done']])
 
 PROPS['C10'] = dict(level='model_checking',
   bounds='sequential, C++20: a two-level task nesting awaiting an inline leaf with symbolic outcome (value/error/done) and payload',
   outside='stop requests from other threads at suspension points; scheduler hops; at_coroutine_exit ordering (thorough harness list); gcc coroutine lowering',
   harnesses=[SEQ('task_nested', 'C10_task.cpp', 'h_task_nested', std='c++20', exc=True, extra=['$REPO/source/async_stack.cpp'], opts=dict(max_rec=8, max_visits=200), desc='task<int> parent awaiting task<int> child awaiting a leaf with symbolic outcome')] +
             [SEQ('task_cleanup_o%d' % o, 'C10_task.cpp', 'h_task_cleanup', std='c++20', exc=True, extra=['$REPO/source/async_stack.cpp'], opts=dict(params=[o], max_rec=8, max_visits=200), desc='two at_coroutine_exit actions, exit path %s' % ['return', 'exception', 'done'][o]) for o in (0, 1, 2)] +
+            [SEQ('task_retthrow_%d' % c, 'C10_task.cpp', 'h_task_retthrow', std='c++20', exc=True, extra=['$REPO/source/async_stack.cpp'], opts=dict(params=[c], max_rec=8, max_visits=200), desc='co_return of a tracked result whose construction %s' % ('throws' if c else 'succeeds')) for c in (0, 1)] +
             [SEQ('task_stop_o%d_p%d' % (o, p), 'C10_task.cpp', 'h_task_stop', std='c++20', exc=True, extra=['$REPO/source/async_stack.cpp'], opts=dict(params=[o, p], max_rec=8, max_visits=200), desc='stop %s on the awaiting receiver is visible to the awaited leaf; leaf outcome %d' % ('requested' if p else 'not requested', o)) for o in (0, 2) for p in (0, 1)])
 
 PROPS['C14'] = dict(level='model_checking',
@@ -164,3 +165,4 @@ PROPS['C14'] = dict(level='model_checking',
   outside='everything that has the kernel as the other party: epoll/io_uring submission and completion, byte-exact transfers, short/failed syscalls, descriptor reuse after cancellation, cross-thread inbox wake-ups (not encodable without a kernel model; see DESIGN 7.6)',
   harnesses=[SEQ('fd_first_%d' % c, 'C14_fd.cpp', 'h_fd', opts=dict(params=[c], max_visits=100), desc='safe_file_descriptor: first operation %d, then three symbolic operations out of 8' % c) for c in range(8)] +
             [SEQ('mmap_seq', 'C14_fd.cpp', 'h_mmap', opts=dict(params=[0], max_visits=100), desc='mmap_region: three symbolic operations out of 4')])
+PROPS['C11']['harnesses'] += [SEQ('via_throw_k%d' % k, 'C11_viathrow.cpp', 'h_via_throw', exc=True, opts=dict(params=[k]), desc='via over a source completing on a foreign context with a value whose copy #%d throws' % k) for k in (0, 1, 2, 99)]
